@@ -130,6 +130,7 @@ def build(world, case):
                 items.append((key, f'{SCHEME[key]}:{d}'))
         with open(p, 'w') as fh:
             fh.write(_file_text(case['style'], items))
+    world.raw_file = dict(raw)          # what the file alone says (for the second read of run_case)
     # environment
     env = {}
     ek = case['env']
@@ -368,6 +369,23 @@ def run_case(case):
                     out += post_face(got['transport'], _uri_expect(got['transport']))
                 if got.get('pib') == exp['pib'] and got.get('tpm') == exp['tpm']:
                     out += post_keychain(got['pib'], got['tpm'], base)
+            # never a first use only: the SAME process reads again after the environment changed (overrides withdrawn, or a
+            # transport override added when there was none); nothing of the first read may survive in the second
+            if not isinstance(got, Exception):
+                had_env = any(k.startswith('NDN_CLIENT_') for k in os.environ)
+                raw2 = dict(world.raw_file)
+                for k in list(os.environ):
+                    if k.startswith('NDN_CLIENT_'):
+                        del os.environ[k]
+                if not had_env:
+                    os.environ['NDN_CLIENT_TRANSPORT'] = raw2['transport'] = 'tcp://env-host-2:7009'
+                exp2, notes2 = expected_conf(world, case, raw2, conf_path)
+                try:
+                    got2 = client_conf.read_client_conf()
+                except Exception as e:
+                    got2 = e
+                what2 = 'after the overrides were withdrawn' if had_env else 'after a transport override was added'
+                out += [(k + ':second-read', f'second read in the same process {what2}: {w}') for k, w in post_conf(case, got2, exp2, notes2)]
         return out
     finally:
         shutil.rmtree(root, ignore_errors=True)
